@@ -127,8 +127,11 @@ type desc struct {
 	Held     int          `json:"held,omitempty"`  // flood: reqs[:held] are stopped in their handlers (one per worker) while reqs[held:held+flood] are delivered
 	Flood    int          `json:"flood,omitempty"` // flood: the rest, reqs[held+flood:], is sent after release and quiescence
 	Late     int          `json:"late,omitempty"`
-	Logger   string       `json:"logger,omitempty"`   // "" = SetLogger(nil) | mem = logger.NewMemLogger() | std = logger.NewStdLogger()
-	OnError  bool         `json:"on_error,omitempty"` // SetOnError(callback)
+	Logger   string       `json:"logger,omitempty"`    // "" = SetLogger(nil) | mem = logger.NewMemLogger() | std = logger.NewStdLogger()
+	OnError  bool         `json:"on_error,omitempty"`  // SetOnError(callback)
+	HeldType string       `json:"held_type,omitempty"` // held-mix: type of the held request, types queued behind it, one resource or one group
+	Mix      []string     `json:"mix,omitempty"`
+	SameRes  bool         `json:"same_resource,omitempty"`
 	cfgSet   bool         // the generator chose logger / OnError itself
 	Burst    int          `json:"burst,omitempty"`           // flood on ONE resource: size of the burst (first request held, the others queued behind it)
 	Lookups  int          `json:"lookups,omitempty"`         // conc: goroutines calling Service.With / Service.Resource all the time ...
@@ -2054,7 +2057,12 @@ func runFlood(d desc) ([]string, []string) {
 	}
 	close(rec.release)
 	// quiescence: one shared deadline, lost requests never complete
-	deadline := time.Now().Add(3 * time.Second)
+	quiesce, lateWait := 3*time.Second, 2*time.Second
+	if len(flood) < 10 {
+		// a handful of requests: lost ones are judged quickly
+		quiesce, lateWait = 800*time.Millisecond, 500*time.Millisecond
+	}
+	deadline := time.Now().Add(quiesce)
 	done := map[string]bool{}
 	for _, rq := range d.Reqs[:d.Held+d.Flood] {
 		rem := time.Until(deadline)
@@ -2067,7 +2075,7 @@ func runFlood(d desc) ([]string, []string) {
 	for _, rq := range late {
 		send(rq)
 	}
-	deadline = time.Now().Add(2 * time.Second)
+	deadline = time.Now().Add(lateWait)
 	for _, rq := range late {
 		rem := time.Until(deadline)
 		if rem < 0 {
@@ -2952,6 +2960,45 @@ func genBurst(prop string, gseed uint64, idx, n int) desc {
 	return d
 }
 
+// directed: a get / call / auth request of one worker group is held in its handler while requests of the SAME
+// group - access requests among them - are queued behind it, then released; one response and one handler
+// invocation per request. sameRes: all on one resource (types then differ), else one resource each in a shared group.
+func genHeldMix(prop string, gseed uint64, idx int, held string, mix []string, sameRes bool) desc {
+	r := NewRng(gseed)
+	d := desc{Kind: "flood", Service: "fl", GenSeed: gseed, Held: 1, Flood: len(mix), Late: 1, HeldType: held, Mix: mix, SameRes: sameRes}
+	short := func() *[]Action {
+		sc := genScript(r, replyKinds)
+		if len(sc) > 3 {
+			sc = sc[:3]
+		}
+		return &sc
+	}
+	h := Handlers{Pid: 0, Access: short(), Get: short(), Call: map[string][]Action{"*": *short()}, Auth: map[string][]Action{"*": *short()}}
+	p := PatternDef{Pattern: "q.$id", H: h}
+	if !sameRes {
+		p.Group = "grp"
+	}
+	d.Patterns = []PatternDef{p}
+	types := append(append([]string{held}, mix...), "call")
+	for k, typ := range types {
+		rn := "fl.q.r0"
+		if !sameRes {
+			rn = fmt.Sprintf("fl.q.r%d", k)
+		}
+		rq := loadRequest(r, fmt.Sprintf("_INBOX.%s.hm%d.%d", prop, idx, k), rn, 30000+k, []string{fmt.Sprintf("m%d", k)}, 8)
+		me := ""
+		if typ == "call" || typ == "auth" {
+			me = fmt.Sprintf("m%d", k)
+			rq.Subject = typ + "." + rn + "." + me
+		} else {
+			rq.Subject = typ + "." + rn
+		}
+		rq.Parts = []string{typ, rn, me}
+		d.Reqs = append(d.Reqs, rq)
+	}
+	return d
+}
+
 func genFlood(prop string, gseed uint64, idx, inCh, workers, nflood, nlate int) desc {
 	r := NewRng(gseed)
 	d := desc{Kind: "flood", Service: "fl", GenSeed: gseed, InCh: inCh, Workers: workers, Flood: nflood, Late: nlate}
@@ -3374,6 +3421,9 @@ func main() {
 		if err := LoadReplay(o.Replay, &d); err != nil {
 			panic(err)
 		}
+		if d.Kind == "flood" && len(d.Reqs) == 0 && len(d.Mix) > 0 {
+			d = genHeldMix(*prop, d.GenSeed, 0, d.HeldType, d.Mix, d.SameRes)
+		}
 		if d.Kind == "flood" && len(d.Reqs) == 0 && d.Burst > 0 {
 			d = genBurst(*prop, d.GenSeed, 0, d.Burst)
 		}
@@ -3557,6 +3607,30 @@ func main() {
 		for bi, n := range bursts {
 			add(genBurst(*prop, r.Next(), bi, n))
 		}
+		// (d4) directed: requests (access among them) queued behind a held get / call / auth request of the same group
+		hm := 0
+		for _, held := range []string{"get", "call", "auth"} {
+			for _, mix := range [][]string{{"access"}, {"access", "get"}, {"get", "access", "call"}, {"access", "access", "access"}, {"call", "access"}, {"access", "auth", "access"}, {"access", "call"}} {
+				for _, same := range []bool{true, false} {
+					if same {
+						// on one resource the request types must differ (they tell the requests apart)
+						seen := map[string]bool{held: true}
+						dup := false
+						for _, t := range mix {
+							if (t == "get" || t == "access") && seen[t] {
+								dup = true
+							}
+							seen[t] = true
+						}
+						if dup {
+							continue
+						}
+					}
+					add(genHeldMix(*prop, r.Next(), hm, held, mix, same))
+					hm++
+				}
+			}
+		}
 		// (e) deterministic overlap of two requests on different worker groups
 		pairs := 60
 		if o.Tier == "thorough" {
@@ -3607,7 +3681,10 @@ func main() {
 					role = "late-request"
 				}
 				c := Case{Term: t, Desc: compact, Nontrivial: true, Tags: []string{"queue-flood", role}, Key: t}
-				if d.Burst > 0 {
+				if len(d.Mix) > 0 {
+					c.Tags = []string{"held-mix", role}
+					dist["held-mix-member"]++
+				} else if d.Burst > 0 {
 					c.Tags = []string{"group-burst", role}
 					dist["burst-member"]++
 				}
@@ -3753,6 +3830,6 @@ func main() {
 			}
 		}
 	}
-	rule := "one request per case against a freshly served res.Service on a recording connection that hands a request to the service once per subscription whose subject matches (scripts of 0-6 actions per handler incl. ParseParams/ParseToken into typed targets, a third of the handler sets built through the Option API (GetModel/GetCollection/GetResource, Set, ...), 150 option lists with conflicts checked against the documented registration panics, panic values incl. real runtime errors: index out of range, nil map write, nil dereference, divide by zero, failed type assertion; product of request type x method case {named,*,none,new with/without New handler,empty} x resource matched/unmatched x handler present/absent x payload {full,partial,empty,{},null,6 undecodable texts} + random shapes + 72 requests to the root resource of a named service (the empty pattern) + malformed subjects + 80 degenerate but deliverable resource names (<service>., <service>..x, trailing dot, dots only, empty; all four types, named and unnamed services) + 2 rounds of 200 concurrent requests over 20 resource patterns, each request on its own resource name with payload values unique to it, handlers yielding before they read, compared per reply subject and per-request handler observations + 2 rounds of 200 requests on patterns with 12 path params routed while 4 goroutines call Service.With / Service.Resource on other names of the same token count (the load rounds have 3 such goroutines too); params and group expected in concurrent cases are derived from the subject with Pattern.Values + payloads that start with a valid JSON value (trailing bytes, two concatenated values, NUL/BOM/whitespace variants; validity judged by json.Valid on the bytes sent) + 126 requests on handler sets with sub-Muxes mounted (Mount/Route, depth 1-2, handlers added before/after mounting) under parent patterns that have placeholders at the mount position: names matching inside a mount, names entering a mount path but matching only a pattern of the parent / of the outer mount, near misses; expected path params and group always derived from subject + full registered pattern, never from the Mux + 6 queue-flood scenarios (in-channel size 1/2/4, 1-2 workers all held in stopped handlers, 40 requests on distinct and repeated resources delivered meanwhile, 6 more after release; thorough also the default 1024/32 with 3000 pending) + same-resource bursts of 65/129/258/300 requests (thorough up to 2049) queued behind a held first request, responses and handler invocations counted per request + every family under the service configurations {no logger, MemLogger, StdLogger} x {OnError unset, set} and 240 error-path cases (40 per configuration) + values whose MarshalJSON panics (runtime error / string / error / *Error) in OK, Model, Collection, Query*, event and token-event positions of non-get handlers and as Data of *Error values (panicked, passed to Error, returned through RequireValue) + 96 payloads with absent or empty host/remoteAddr/uri/query/cid next to look-alike header, token and params entries + 60 overlap pairs: request A stopped inside its handler before (or between two) reads of its fields until request B on another worker group was processed completely, half of them under GOMAXPROCS=1); non-trivial = well-formed request whose pattern carries a non-empty script or whose payload does not decode; distinct by the whole case term"
+	rule := "one request per case against a freshly served res.Service on a recording connection that hands a request to the service once per subscription whose subject matches (scripts of 0-6 actions per handler incl. ParseParams/ParseToken into typed targets, a third of the handler sets built through the Option API (GetModel/GetCollection/GetResource, Set, ...), 150 option lists with conflicts checked against the documented registration panics, panic values incl. real runtime errors: index out of range, nil map write, nil dereference, divide by zero, failed type assertion; product of request type x method case {named,*,none,new with/without New handler,empty} x resource matched/unmatched x handler present/absent x payload {full,partial,empty,{},null,6 undecodable texts} + random shapes + 72 requests to the root resource of a named service (the empty pattern) + malformed subjects + 80 degenerate but deliverable resource names (<service>., <service>..x, trailing dot, dots only, empty; all four types, named and unnamed services) + 2 rounds of 200 concurrent requests over 20 resource patterns, each request on its own resource name with payload values unique to it, handlers yielding before they read, compared per reply subject and per-request handler observations + 2 rounds of 200 requests on patterns with 12 path params routed while 4 goroutines call Service.With / Service.Resource on other names of the same token count (the load rounds have 3 such goroutines too); params and group expected in concurrent cases are derived from the subject with Pattern.Values + payloads that start with a valid JSON value (trailing bytes, two concatenated values, NUL/BOM/whitespace variants; validity judged by json.Valid on the bytes sent) + 126 requests on handler sets with sub-Muxes mounted (Mount/Route, depth 1-2, handlers added before/after mounting) under parent patterns that have placeholders at the mount position: names matching inside a mount, names entering a mount path but matching only a pattern of the parent / of the outer mount, near misses; expected path params and group always derived from subject + full registered pattern, never from the Mux + 6 queue-flood scenarios (in-channel size 1/2/4, 1-2 workers all held in stopped handlers, 40 requests on distinct and repeated resources delivered meanwhile, 6 more after release; thorough also the default 1024/32 with 3000 pending) + same-resource bursts of 65/129/258/300 requests (thorough up to 2049) queued behind a held first request, responses and handler invocations counted per request + every family under the service configurations {no logger, MemLogger, StdLogger} x {OnError unset, set} and 240 error-path cases (40 per configuration) + values whose MarshalJSON panics (runtime error / string / error / *Error) in OK, Model, Collection, Query*, event and token-event positions of non-get handlers and as Data of *Error values (panicked, passed to Error, returned through RequireValue) + 96 payloads with absent or empty host/remoteAddr/uri/query/cid next to look-alike header, token and params entries + directed held-mix scenarios (a get/call/auth request held in its handler, access/get/call/auth requests of the same resource or group queued behind it, enumerated) + 60 overlap pairs: request A stopped inside its handler before (or between two) reads of its fields until request B on another worker group was processed completely, half of them under GOMAXPROCS=1); non-trivial = well-formed request whose pattern carries a non-empty script or whose payload does not decode; distinct by the whole case term"
 	Emit(o, *prop, "From GoRes Require Import Run.Run_"+*prop+".", "rcase", rule, cases, dist, map[string]interface{}{"children_crashed": dist["crashed"], "racing_lookups_made": totalLookups}, impl, 250)
 }
